@@ -1293,9 +1293,10 @@ def finishPending (s : St) (recs : List Obs) (acc : Option Toks) : St :=
           let s := if normal.any (· == 'p') || tds.any (fun x => x.any (· == 'p')) then
               s.prop "C03" "no_panic_during_thread_teardown" s!"normal={normal} td={tget o "td"}" else s.chk
           let s := if tds.all (· == normal) then s.chk else
-              ((s.prop "C03" "same_behaviour_during_thread_teardown" s!"normal={normal} td={tget o "td"}").prop
+              (((s.prop "C03" "same_behaviour_during_thread_teardown" s!"normal={normal} td={tget o "td"}").prop
                 "C11" "backends_interchangeable_in_every_context" s!"scheme={s.scheme} normal={normal} td={tget o "td"}").prop
-                "C05" "verifies_under_own_key" s!"during thread teardown: normal={normal} td={tget o "td"}"
+                "C05" "verifies_under_own_key" s!"during thread teardown: normal={normal} td={tget o "td"}").prop
+                "C08" "updates_take_effect_in_every_context" s!"normal={normal} td={tget o "td"}"
           s
         else if op == "snap" then
           match s.cur with
